@@ -309,7 +309,7 @@ def rule_no_hang(ctx):
                 tmp = _Ctx("C07", ctx.tier, prog)
                 c07.rule_outer_loop(tmp)
                 ex = [i for i in tmp.instances if i.rule == "R07.3" and i.key == "exits"]
-                ok = bool(ex) and all(i.status == "ok" for i in ex) if b.short == "BodyReader::read_chunked" else _has_exit_on_zero(b, body)
+                ok = bool(ex) and all(i.status == "ok" for i in ex)
                 ctx.check(ok, R, key, "cursor loop: leaves as soon as one decoder call consumes nothing; each continuing iteration advances "
                           "input_used, which is bounded by the input length", loc=body_loc(b))
                 continue
